@@ -55,17 +55,26 @@ def run(chk):
 def q_elements(chk, mod):
     chk.function(MOD, 'Q_elements_from_wavelength')
     pre = f'{MOD}:Q_elements_from_wavelength'
-    for wdt in (F64, F32):
+    # float64/float32 wavelength with scalar operands, then operand-shape variants (one incident beam and per-pixel scattered beams is the
+    # usual case; an incident beam per pulse with its own dimension, per-event wavelengths, ...): the proof is element-generic
+    shapes = {'': None, '; shape: all 1-d': lambda n: ('pixel',), '; shape: scalar incident beam, others 1-d': lambda n: () if n == 'b1' else ('pixel',),
+              '; shape: incident beam along its own dim': lambda n: ('pulse',) if n == 'b1' else ('pixel',),
+              '; shape: scalar scattered beam, incident 1-d': lambda n: ('pulse',) if n == 'b1' else (),
+              '; shape: wavelength along its own dim': lambda n: ('wavelength',) if n == 'lam' else ('pixel',)}
+    for wdt, (stag, pol) in [(F64, x) for x in shapes.items()] + [(F32, ('', None))]:
         u1, u2 = symbolic_unit('k_b1', NAMED['m']), symbolic_unit('k_b2', NAMED['m'])
-        mk = lambda: dict(wavelength=arg('lam', 'length', dtype=wdt), incident_beam=arg('b1', 'length', dtype=VEC, unit=u1),
-                          scattered_beam=arg('b2', 'length', dtype=VEC, unit=u2))
+
+        def mk():
+            with kit.dims_policy(pol):
+                return dict(wavelength=arg('lam', 'length', dtype=wdt), incident_beam=arg('b1', 'length', dtype=VEC, unit=u1),
+                            scattered_beam=arg('b2', 'length', dtype=VEC, unit=u2))
         a = mk()
         b1, b2, lam = a['incident_beam'], a['scattered_beam'], a['wavelength']
         base = [lam.val > 0, norm2(b1.val) > 0, norm2(b2.val) > 0] + kit.CONST_AXIOMS
         paths = chk.explore(lambda: mod.Q_elements_from_wavelength(**mk()), base=base, catch=CATCH)
         n1, n2 = core.sqrt_term(norm2(b1.val), nonneg=True), core.sqrt_term(norm2(b2.val), nonneg=True)
         for p in paths:
-            tag = f'wavelength:{wdt}'
+            tag = f'wavelength:{wdt}{stag}'
             ok = p.kind == 'return' and set(p.value) == {'Qx', 'Qy', 'Qz'}
             chk.decided(f'{pre}/returns-Qx,Qy,Qz[{tag}]', ok, detail=repr(p.value)[:200])
             if not ok:
@@ -308,6 +317,50 @@ def _array_operand_failures(n, seed, limit=3):
     return fails
 
 
+def _q_shape_failures(n, seed, limit=3):
+    """Q components with scalar / array-valued incident beam (own dim `pulse`), scattered beam (`pixel`) and wavelength (`wavelength`):
+    every element must equal (2 pi / lambda)(e_i - e_f) for its own operands"""
+    import itertools as it
+    import numpy as np
+    import scipp as sc
+    from vf.realrun import real_module
+    tof = real_module('conversion.tof')
+    rng = np.random.default_rng(seed)
+    fails = []
+    combos = list(it.product((False, True), repeat=3))
+    for i in range(n):
+        bi, bf, bw = combos[i % 8]
+        B1 = rng.normal(size=(2, 3)) * 10 ** rng.uniform(-1, 1)
+        B2 = rng.normal(size=(3, 3)) * 10 ** rng.uniform(-1, 1)
+        L = 10 ** rng.uniform(-1, 1, size=2)
+        b1 = sc.vectors(dims=['pulse'], values=B1, unit='m') if bi else sc.vector(B1[0], unit='m')
+        b2 = sc.vectors(dims=['pixel'], values=B2, unit='mm') if bf else sc.vector(B2[0], unit='mm')
+        lam = sc.array(dims=['wavelength'], values=L, unit='angstrom') if bw else sc.scalar(L[0], unit='angstrom')
+        desc = {'id': f'qshape{i}', 'index': i, 'seed': seed, 'kind': 'qshape', 'arrays(incident,scattered,wavelength)': [bi, bf, bw]}
+        try:
+            q = tof.Q_elements_from_wavelength(wavelength=lam, incident_beam=b1, scattered_beam=b2)
+        except Exception as e:  # noqa: BLE001
+            if len(fails) < limit:
+                fails.append({**desc, 'raised': repr(e)[:200]})
+            continue
+        worst = 0.0
+        for p_ in range(2 if bi else 1):
+            for x_ in range(3 if bf else 1):
+                for w_ in range(2 if bw else 1):
+                    want = 2 * np.pi / L[w_] * (B1[p_] / np.linalg.norm(B1[p_]) - B2[x_] / np.linalg.norm(B2[x_]))
+                    for c, key in enumerate(('Qx', 'Qy', 'Qz')):
+                        v = q[key]
+                        sel = v
+                        for d, k in (('pulse', p_), ('pixel', x_), ('wavelength', w_)):
+                            if d in sel.dims:
+                                sel = sel[d, k]
+                        worst = max(worst, abs(float(sel.value) - want[c]) / max(np.linalg.norm(want), 1e-300))
+        if worst > 1e-12:
+            if len(fails) < limit:
+                fails.append({**desc, 'worst_relative_error': worst})
+    return fails
+
+
 def bounded_numeric(chk):
     n = 300 if chk.tier == 'quick' else 5000
     fails, worst = _numeric_failures(n, 77 + chk.seed)
@@ -315,6 +368,9 @@ def bounded_numeric(chk):
                       n, fails, detail=f'worst scaled error {worst:.3g}')
     m = 64 if chk.tier == 'quick' else 1600
     fails = _array_operand_failures(m, 91 + chk.seed)
+    fq = _q_shape_failures(m, 93 + chk.seed)
+    chk.bounded_check('Q-vector-operand-shapes', 'real Q_elements_from_wavelength with scalar / array-valued incident beam, scattered beam and wavelength along their own '
+                      'dimensions: every element == (2 pi / lambda)(e_i - e_f)', f'{m} cases (8 shape combinations x {m // 8})', m, fq)
     chk.bounded_check('hkl-array-operands', 'real hkl_vec_from_Q_vec with scalar / array-valued Q, UB, rotation in all 8 combinations: '
                       '2 pi R_k UB_k hkl_k == Q_k element by element', f'{m} cases (8 shape combinations x {m // 8})', m, fails)
 
@@ -322,6 +378,10 @@ def bounded_numeric(chk):
 def replay(rec):
     if '/bounded/' in rec['obligation']:
         f = rec.get('meta', {}).get('replay') or rec.get('model') or {}
+        if f.get('kind') == 'qshape':
+            fails = _q_shape_failures(int(f.get('index', 0)) + 1, int(f.get('seed', 93)), limit=10 ** 6)
+            hit = [x for x in fails if x['index'] == f.get('index')]
+            return {'reproduced': bool(hit), 'case': hit[:1]}
         if f.get('kind') == 'arrays':
             fails = _array_operand_failures(int(f.get('index', 0)) + 1, int(f.get('seed', 91)), limit=10 ** 6)
             hit = [x for x in fails if x['index'] == f.get('index')]
@@ -329,5 +389,9 @@ def replay(rec):
         fails, worst = _numeric_failures(int(f.get('index', 0)) + 1, int(f.get('seed', 77)), limit=1000)
         hit = [x for x in fails if x['index'] == f.get('index')]
         return {'reproduced': bool(hit), 'case': hit[:1]}
+    if 'Q_elements_from_wavelength' in rec['obligation']:
+        fq = _q_shape_failures(64, 93)
+        if fq:
+            return {'reproduced': True, 'cases': fq[:1]}
     fails, worst = _numeric_failures(200, 5)
     return {'reproduced': bool(fails), 'cases': fails[:1], 'worst': worst}
